@@ -6,15 +6,18 @@ FUNCTIONS = [('utils', 'theory_BER'), ('utils', 'average_voltages'), ('utils', '
 BOUNDS = {'receiver model': 'P_avg, ER, G, NF, BW_opt > BW_el, r, R_L, T, NF_el, relative threshold: all symbolic; OOK and PPM (M in {2,4,16}, hard decision), '
                             'amplified and unamplified',
           'estimators': 'mu0 < mu1, s0, s1 > 0 symbolic; the library\'s own 1000-point grids executed in full',
-          'theory functions': 'mu, s0, s1 symbolic; M in {2,4,8} plus the rejection of non powers of two in 1..20'}
+          'theory functions': 'mu, s0, s1 symbolic; M in {2,4,8} plus the rejection of non powers of two in 1..20; soft-decision set-up at M in {4,16} (thorough 2..64), x in [-8,8]',
+          'call histories': 'THRESHOLD_EST / BER_analizer on one eye object queried with another order before: three concrete (M1 -> M2) pairs (thorough six)'}
 OUTSIDE = ['unamplified calls of average_voltages / noise_variances without G and BW_opt (they evaluate idb(G) and BW_el/BW_opt unconditionally and raise TypeError on the None defaults; the harness passes the neutral values G = 0 dB, BW_opt = BW_el)',
-           'everything that goes through scipy.integrate.quad (soft decision: = Q(mu/sqrt(s0^2+s1^2)) for M = 2, soft <= hard)',
+           'the numerical value of everything that goes through scipy.integrate.quad (soft decision: = Q(mu/sqrt(s0^2+s1^2)) for M = 2, soft <= hard); '
+           'what is decided for ppm.theory_BER soft is the set-up: integrand at an arbitrary x, limits and prefactors are the documented ones',
            '"equals the true minimum within the grid error" and midpoint optimality for equal sigmas (need convexity of Q, not in the axiom table)',
            'monotonicity in mu and the [0, M/(2(M-1))] bound of the grid-minimum functions (ook/ppm theory_BER, PPM estimator): 1000-term '
            'minimum chains over erfc variables exceed the solver budget; their element-wise vectorisation and input validation are decided',
            'invariance of the estimators under a common shift of both levels (decided only through the threshold-in-range and error-expression clauses)']
 ASSUMPTIONS = ['erfc axioms: 0 < erfc < 2, strictly decreasing, erfc(-x) = 2 - erfc(x), congruence; 10**x axioms incl. decade brackets',
-               'Q(x) = erfc(x/2**0.5)/2 with 2**0.5 the double: comparisons involving it use a relative tolerance of 1e-9']
+               'Q(x) = erfc(x/2**0.5)/2 with 2**0.5 the double: comparisons involving it use a relative tolerance of 1e-9',
+               'scipy.integrate.quad(f, a, b) returns the integral of f over [a, b] (symbolically: a fresh value; the recorded f, a, b are inspected)']
 LIMITS = {'max_paths': 200, 'query_timeout_ms': 180000, 'max_branches': 6000}
 
 H = '6.62607015e-34'
@@ -265,6 +268,49 @@ def scen_estimator_history(env, cfg):
     env.check('the estimated threshold lies in [mu0, mu1]', env.And(env.le(mu0, th, 5), env.le(th, mu0 + d, 5)))
 
 
+SOFT = "soft decision: P_e = M/(2(M-1)) * (1 - (2 pi)^(-1/2) * Integral over R of (1 - Q((mu1 + s1*x)/s0))^(M-1) * exp(-x^2/2) dx)"
+
+
+def scen_soft_setup(env, cfg):
+    """ppm.theory_BER(..., 'soft'): the quadrature itself (scipy quad) is outside the claim; what is decided for every mu1, s0, s1 is
+    that the integral handed to it is the documented one (integrand at an arbitrary x, limits, prefactors).  Concrete runs compare the
+    returned value with an independent numerical evaluation of the same formula."""
+    P = env.lib.ppm
+    M = cfg['M']
+    mu = env.real('mu', 0.1, 5)
+    s0 = env.real('s0', 0.05, 1)
+    s1 = env.real('s1', 0.05, 1)
+    b = P.theory_BER(mu, s0, s1, M, 'soft')
+    b = _scalar(env, b)
+    if env.symbolic:
+        import z3
+        from vf.core import SB
+        q = [e[1] for e in env.events('quad')]
+        ok = len(q) == 1 and q[0]['a'] == -float('inf') and q[0]['b'] == float('inf')
+        if not ok:
+            env.check(SOFT, False)
+            return
+        x = env.real('x', -8, 8)
+        got = q[0]['f'](x)
+        ref = (1 - _Qf(env, (mu + s1 * x) / s0)) ** (M - 1) * env.exp(-x * x / 2)
+        c1 = env.eq(got, ref, scale=1)
+        c2 = env.eq(b * (2 * (M - 1)), (1 - q[0]['out'] / env.sqrt(2 * env.pi())) * M, scale=2 * M)
+        cnd = env.And(c1, c2)
+        if isinstance(cnd, SB):
+            # replay steering only: clearly different sigmas at a moderate signal-to-noise ratio, where a wrong integrand moves the value
+            steer = [(s1 >= 2 * s0).t, (mu <= 6 * s1).t, (mu >= 2 * s1).t, (s0 >= env.const('0.08')).t]
+            cnd = SB(cnd.t, cnd.rt, z3.And(z3.Not(cnd.t), *steer))
+        env.check(SOFT, cnd)
+        return
+    import math
+    import scipy.integrate as si
+    fm, f0, f1 = float(mu), float(s0), float(s1)
+    Qn = lambda t: 0.5 * math.erfc(t / math.sqrt(2))
+    val = si.quad(lambda t: (1 - Qn((fm + f1 * t) / f0)) ** (M - 1) * math.exp(-t * t / 2), -math.inf, math.inf)[0]
+    ref = (1 - val / math.sqrt(2 * math.pi)) * 0.5 * M / (M - 1)
+    env.check(SOFT, abs(float(b) - ref) <= 1e-6 * max(ref, 1e-12) + 1e-13)
+
+
 def scen_theory(env, cfg):
     kind = cfg['kind']
     if kind == 'reject':
@@ -333,4 +379,6 @@ def configs(tier):
     out.append(('theory-ook', scen_theory, dict(kind='ook'), {'validate': 1}))
     for M in ((4,) if q else (2, 4, 8)):
         out.append((f'theory-ppm{M}', scen_theory, dict(kind='ppm', M=M), {'validate': 1}))
+    for M in ((4, 16) if q else (2, 4, 8, 16, 64)):
+        out.append((f'theory-ppm{M}-soft-setup', scen_soft_setup, dict(M=M), {'validate': 2}))
     return out
